@@ -130,10 +130,35 @@ def activity(rng, K, T, min_frac=0.15):
     raise RuntimeError('no activity partition found')
 
 
+ZF_GAIN_MAX = 10.0
+
+
+def zf_gain(steering):
+    """(..., K, D) steering vectors -> (...,) max_k ||v_ZF,k||^2 for unit-norm steering vectors, i.e. the largest
+    diagonal entry of the inverse Gram matrix of the normalised vectors (K = 2: 1 / (1 - |cos|^2))."""
+    A = steering / np.linalg.norm(steering, axis=-1, keepdims=True)
+    G = np.einsum('...kd,...jd->...kj', A.conj(), A)
+    Gi = np.linalg.inv(G)
+    return np.max(np.real(np.einsum('...kk->...k', Gi)), axis=-1)
+
+
+def steering_vectors(rng, F, K, D):
+    """complex Gaussian steering vectors per bin, conditioned on the separability premise of `C17.sir_30dB`:
+    a zero-forcing vector of squared norm <= 10 exists for every source (bins violating it are redrawn; for
+    D = K + 1 = 3 that is about 1 % of the bins, far less for larger D)."""
+    st = cnormal(rng, F, K, D)
+    for _ in range(1000):
+        bad = np.flatnonzero(zf_gain(st) > ZF_GAIN_MAX)
+        if bad.size == 0:
+            return st
+        st[bad] = cnormal(rng, bad.size, K, D)
+    raise RuntimeError('no separable steering vectors found')
+
+
 def make_scene(rng, K, D, F, T, noise_db):
     """steering (F,K,D), owner (T,), source (F,T), noise (F,D,T): sources disjoint in time-frequency,
     sensor noise `noise_db` (<= -40) relative to the weakest source image (mean power per sensor)."""
-    steering = cnormal(rng, F, K, D)
+    steering = steering_vectors(rng, F, K, D)
     owner, akind = activity(rng, K, T)
     gains = rng.uniform(0.7, 1.4, size=K)
     source = cnormal(rng, F, T) * rng.uniform(0.5, 1.5, size=(F, T)) * gains[owner][None, :]
@@ -158,11 +183,13 @@ def scene_in_domain(steering, owner, source, noise):
         return 'sizes outside K 2..3, D K+1..8, F in {33,65,257}, T 60..200'
     if any(np.sum(owner == k) < np.ceil(0.15 * T) for k in range(K)):
         return 'a source is active in < 15 % of the frames'
+    if not np.all(zf_gain(steering) <= ZF_GAIN_MAX * (1 + 1e-9)):
+        return 'a bin has nearly collinear steering vectors (no zero-forcing vector with squared norm <= 10)'
     images = source_images(steering, owner, source)
     pn = np.mean(np.abs(noise) ** 2)
     for k in range(K):
         pk = np.mean(np.abs(images[k][:, :, owner == k]) ** 2)
-        if not pn <= pk * 10 ** (-40 / 10) * (1 + 0.25):     # sample noise power vs nominal: 25 % slack on the estimate
+        if not pn <= pk * 10 ** (-40 / 10) * (1 + 0.05):     # sample noise power vs nominal level: 5 % slack on the estimate
             return 'noise is less than 40 dB below a source'
     return None
 
